@@ -1,8 +1,10 @@
 import IodineModel.Drv.Codec
 import IodineModel.Drv.Encoding
 import IodineModel.Drv.Users
+import IodineModel.Drv.Common
 import IodineModel.Drv.Login
 import IodineModel.Drv.FwQuery
+import IodineModel.Drv.Slots
 /-
 Line-protocol driver: one operation per input line, one result line per operation.
 The C harnesses (harness/*.c) answer the same lines by calling the real code; the
@@ -12,17 +14,21 @@ open Iodine
 
 structure DrvState where
   fw : FwQuery.Fw := FwQuery.init
+  slots : List Users.Slot := []
 
 def firstSome (fs : List (List String → Option String)) (toks : List String) : Option String :=
   fs.findSome? (fun f => f toks)
 
 def step (st : DrvState) (line : String) : DrvState × String :=
   let toks := (line.trimAscii.toString.splitOn " ").filter (fun t => t ≠ "")
-  match firstSome [Drv.Codec.handle, Drv.Encoding.handle, Drv.Users.handle, Drv.Login.handle] toks with
+  match firstSome [Drv.Codec.handle, Drv.Encoding.handle, Drv.Users.handle, Drv.Login.handle, Drv.Common.handle] toks with
   | some r => (st, r)
   | none =>
     match Drv.FwQuery.handle st.fw toks with
     | some (fw, r) => ({ st with fw := fw }, r)
+    | none =>
+    match Drv.Slots.handle st.slots toks with
+    | some (sl, r) => ({ st with slots := sl }, r)
     | none => (st, "bad-op")
 
 partial def loop (h : IO.FS.Stream) (out : IO.FS.Stream) (st : DrvState) : IO Unit := do
